@@ -141,7 +141,13 @@ struct ClockReads
     int64_t mono[24];
 };
 const ClockReads &clock_reads();
-void clock_tick_always(bool on); // fsim: every clock read advances time by 1 us
+void clock_tick_always(bool on);
+struct ClockState
+{
+    int64_t mono, epoch, mono0, off;
+};
+ClockState clock_save();
+void clock_restore(const ClockState &s); // fsim: every clock read advances time by 1 us
 
 // ------------------------------------------------------------ scheduler ----
 enum Strategy : int { S_RANDOM = 0, S_PCT = 1, S_RR = 2, S_STICKY = 3 };
@@ -198,6 +204,8 @@ inline void ev(uint16_t kind, int64_t a, int64_t b, int64_t c, const std::string
     ev(kind, a, b, c, s.data(), s.size());
 }
 std::string ev_str(const Shm *s, const Event &e);
+void trace_reset(); // new run in the same process (fsim)
+uint64_t trace_hash_now();
 
 // ------------------------------------------------------------ file layer ----
 struct FsFault
@@ -240,6 +248,9 @@ struct FsConfig
 void fs_arm(const FsConfig &cfg);
 void fs_disarm();
 int fs_call_count(int call);
+void fs_reset_counts(); // per-operation ordinals (fsim attaches faults to operations)
+void fs_set_fault(const FsFault &f); // replaces the armed fault (and re-arms it)
+bool fs_fault_fired();
 // mtime helper for harness-created files (foreign files, materialised snapshots)
 void fs_stamp(const char *abs_path, int64_t wall_ns);
 
